@@ -47,7 +47,7 @@ def operand(rng, ints, kmax=3):
     return {"zk": 0, "z": rng.choice(ints)}
 
 
-def stmt(rng, ints, bools, profile="full", lhs=None):
+def stmt(rng, ints, bools, profile="full", lhs=None, narrow=None):
     """a random CrabIR statement; lhs = integer variables that may be written (default: all)"""
     W = lhs if lhs is not None else ints
     if profile == "rel":
@@ -122,8 +122,26 @@ def stmt(rng, ints, bools, profile="full", lhs=None):
     if profile != "linear":
         kinds += ["bitw"] * 2
     if bools:
-        kinds += ["bassign_cst", "bassign_var", "bop", "bassume", "bselect"]
+        kinds += ["bassign_cst", "bassign_var", "bop", "bassume", "bselect", "castb", "castb"]
+    if narrow:
+        kinds += ["narrow"] * 5
     k = rng.choice(kinds)
+    if k == "castb":        # boolean <-> integer conversions: x := zext(b), b := trunc(x)
+        b, v = rng.choice(bools), rng.choice(W)
+        if rng.random() < 0.5:
+            return {"op": "cast", "f": "zext", "x": v, "y": b, "sk": "bool", "dk": "int", "sw": 1, "dw": 32}
+        return {"op": "cast", "f": "trunc", "x": b, "y": rng.choice(ints), "sk": "int", "dk": "bool", "sw": 32, "dw": 1}
+    if k == "narrow":       # the 8-bit variable: only conversions from / to 32-bit variables and statements on itself are well typed
+        q = rng.choice(["trunc", "trunc", "zext", "sext", "sext", "const", "assume", "havoc"])
+        if q == "trunc":
+            return {"op": "cast", "f": "trunc", "x": narrow, "y": rng.choice(ints), "sk": "int", "dk": "int", "sw": 32, "dw": 8}
+        if q in ("zext", "sext"):
+            return {"op": "cast", "f": q, "x": rng.choice(W), "y": narrow, "sk": "int", "dk": "int", "sw": 8, "dw": 32}
+        if q == "const":
+            return {"op": "assign", "x": narrow, "e": {"k": rng.randint(-3, 3), "t": []}}
+        if q == "assume":
+            return {"op": "assume", "c": {"e": {"k": rng.randint(-2, 2), "t": [[rng.choice([1, -1]), narrow]]}, "r": rng.choice(["le", "lt", "eq", "ne"])}}
+        return {"op": "havoc", "x": narrow}
     if k == "assign":
         return {"op": "assign", "x": rng.choice(W), "e": le(rng, ints)}
     if k == "arith":
@@ -188,6 +206,11 @@ def history(rng, hid, nints=3, nbools=1, nregs=3, length=10, profile="c03", stmt
     bools = list(range(nints + 1, nints + nbools + 1))
     names = ["x", "y", "z", "w", "u"]
     vars_ = [{"n": names[i - 1], "t": "int"} for i in ints] + [{"n": "b%d" % i, "t": "bool"} for i in bools]
+    narrow = None
+    if nints == 3 and stmt_profile in ("full", "linear") and rng.random() < 0.2:
+        # the last integer variable is 8 bits wide: it takes part only in conversions and in statements on itself
+        narrow = ints.pop()
+        vars_[narrow - 1]["w"] = 8
     prof = PROFILES[profile]
     w = prof["w"]
     tot = float(sum(w))
@@ -219,10 +242,10 @@ def history(rng, hid, nints=3, nbools=1, nregs=3, length=10, profile="c03", stmt
         r = rng.choice(regs)
         p = rng.random()
         if p < cut[0]:
-            steps.append({"op": "stmt", "r": r, "s": stmt(rng, ints, bools, stmt_profile)})
+            steps.append({"op": "stmt", "r": r, "s": stmt(rng, ints, bools, stmt_profile, narrow=narrow)})
         elif p < cut[1]:
             k = rng.choice(["forget", "project", "rename", "expand"])
-            allv = ints + bools
+            allv = ints + bools + ([narrow] if narrow else [])
             if k == "forget":
                 steps.append({"op": "forget", "r": r, "vs": rng.sample(allv, rng.randint(1, 2))})
             elif k == "project":
